@@ -354,6 +354,7 @@ func (e *Engine) evalBase(st *State, x ast.Expr) []valOut {
 					for _, k := range e.eval(b.st, xx.Index) {
 						a := e.newVal(KAddr, types.NewPointer(t), x.Pos())
 						a.Path = fmt.Sprintf("%s[$%d]", b.v.Loc(), k.v.ID)
+						a.Src, a.Src2 = b.v, k.v
 						out = append(out, valOut{k.st, a})
 					}
 				}
